@@ -1,7 +1,7 @@
 (* C07 — A non-nil TerminalError stops the chain and surfaces as error. *)
 From Coq Require Import List Arith Bool.
 Import ListNotations.
-From NJ Require Import Base Registry Classify Select Reorder Machine Spec Bind Refine Chain SpecLemmas.
+From NJ Require Import Base Registry Classify Select Reorder Machine Spec Bind Refine Chain SpecLemmas TableProofs.
 
 (* Failing fallible injector: nothing after it matters, its other results are not injected, and
    the up environment is zero everywhere except error, which holds the TerminalError value. *)
@@ -52,3 +52,17 @@ Theorem C07_static_failure :
                        (sem_static W beh_fn prog failed w d).
 Proof. exact static_refines. Qed.
 Print Assumptions C07_static_failure.
+
+(* A function that returns a TerminalError is never treated as an ordinary injector (whose
+   TerminalError would be just another output): whenever the table classifies it, it is a fallible
+   injector (static or per-invocation), or a wrapper / final function that passes the value upward.
+   A computation on the table generated from /repo/characterize.go; before the repair recorded as
+   D33 it was false (Reorder + MustCache + Cacheable: classified as a plain static injector). *)
+Theorem C07_terminal_error_is_never_an_ordinary_output : forall te d cc s,
+  characterizeFunc te d cc = Some s -> memb (te_terminalT te) (typesOut (d_shape d)) = true ->
+  s_class s <> ClInjector /\ s_class s <> ClStatic.
+Proof.
+  intros te d cc s H Hte. pose proof (terminal_error_never_plain te d cc s H Hte) as Hp.
+  split; intros E; rewrite E in Hp; discriminate Hp.
+Qed.
+Print Assumptions C07_terminal_error_is_never_an_ordinary_output.
